@@ -24,6 +24,7 @@ import json
 import os
 import random
 import re
+import shutil
 import subprocess
 import sys
 from concurrent.futures import ProcessPoolExecutor
@@ -242,6 +243,7 @@ def _lines_batch(job: Tuple[str, str, List[Dict[str, Any]]]) -> Dict[str, Any]:
         Path(pkg, name).write_text(src)
         names[name] = rec
     r = run_pydoctor(root, pkg, ["--docformat=" + fmt])
+    shutil.rmtree(root, ignore_errors=True)
     obs = []
     for name, rec in names.items():
         got = r["per_file"].get(name, [])
@@ -293,6 +295,7 @@ def _exit_job(job: Tuple[str, Dict[str, Any]]) -> Dict[str, Any]:
     pkg, planted, expr = exit_project(root, run)
     args = (["-W"] if run["W"] else []) + (["-q"] if run["V"] == -1 else [])
     r = run_pydoctor(root, pkg, args, expr_fault=expr)
+    shutil.rmtree(root, ignore_errors=True)
     return {"run": run, "rc": r["rc"], "violations": r["violations"], "nprob": r["nprob"], "events": r["events"],
             "planted": planted, "W": run["W"], "V": run["V"],
             "planted_unparsed": any(c["nerr"] > 0 or c["expr"] for c in run["cfg"])}
@@ -374,7 +377,7 @@ def run(ctx: Ctx) -> int:
     jobs = []
     for fmt, rs in sorted(by_fmt.items()):
         rng.shuffle(rs)
-        for bi, batch in enumerate(chunks(rs, 96)):
+        for bi, batch in enumerate(chunks(rs, 24)):
             jobs.append((str(ctx.scratch / f"L_{fmt}_{bi}"), fmt, list(batch)))
     with ProcessPoolExecutor(max_workers=nproc) as ex:
         results = list(ex.map(_lines_batch, jobs))
@@ -382,6 +385,7 @@ def run(ctx: Ctx) -> int:
     observations: List[Dict[str, Any]] = []
     traces: List[Dict[str, Any]] = []
     drift = 0
+    drift_classes: Dict[str, int] = {}
     for res in results:
         if res["extra"]:
             raise MachineryError(f"problem lines for files the harness did not plant anything in: {res['extra']}")
@@ -406,9 +410,13 @@ def run(ctx: Ctx) -> int:
         if len(o["lines"]) == 1 and o["lines"][0] != rec["impl"]:
             drift += 1
             ctx.drift_note({"layout": o["lay"], "model": rec["impl"], "real": o["lines"][0]})
+            dk = "%s/%s/%s/args=%s: real-model=%d" % (o["lay"]["fmt"], o["lay"]["prob"], o["lay"]["pos"],
+                                                    o["lay"]["kind"] in ("function", "method", "class"), o["lines"][0] - rec["impl"])
+            drift_classes[dk] = drift_classes.get(dk, 0) + 1
         if o["id"] % 1500 == 1:
             ctx.sample({"layout": o["lay"], "accepted": [rec["lo"], rec["hi"]], "model": rec["impl"], "printed": o["lines"], "msg": o["msgs"][:1]})
     ctx.extra["lines_model_vs_code_mismatches"] = drift
+    ctx.extra["lines_drift_classes"] = drift_classes
 
     # ================================================================= Lines: code -> spec (TLC judges the observations)
     obs_file = ctx.scratch / "obs.json"
